@@ -671,6 +671,21 @@ func skeletonOK(items []item) bool {
 			return false
 		}
 	}
+	// use-package 'q needs an export in q somewhere in the session
+	for _, it := range items {
+		if it.k != itUse {
+			continue
+		}
+		ok := false
+		for _, d := range items {
+			if d.k == itExport && d.pkg == 1 {
+				ok = true
+			}
+		}
+		if !ok {
+			return false
+		}
+	}
 	// an export must name something that package defines somewhere in the session
 	for _, it := range items {
 		if it.k != itExport {
@@ -904,10 +919,10 @@ func termHasKey(t *term) bool {
 	return false
 }
 
-var allTags = []string{"&key", "&optional", "&rest", "callkey", "defmacro", "defmacro-free", "dotimes", "export", "files", "funarg", "gset",
-	"let-dup", "macrolet", "macrolet-free", "pkg", "prefix", "qref", "redefine", "use"}
+var allTags = []string{"&key", "&optional", "&rest", "callkey", "defmacro", "defmacro-free", "defmacro-free-eq-param", "dotimes", "export", "export-in-other-file",
+	"files", "funarg", "gset", "let-dup", "macrolet", "macrolet-free", "pkg", "prefix", "qref", "qref-in-brackets", "redefine", "use", "use-with-local-export"}
 
-func termTags(t *term, tags map[string]bool) {
+func termTags(t *term, tags map[string]bool, inBrackets bool) {
 	if t == nil {
 		return
 	}
@@ -933,10 +948,21 @@ func termTags(t *term, tags map[string]bool) {
 			tags["macrolet"] = true
 		}
 	case kQRef, kQCall:
-		tags["qref"] = true
+		if inBrackets {
+			tags["qref-in-brackets"] = true
+		} else {
+			tags["qref"] = true
+		}
 	}
-	for _, k := range t.kids {
-		termTags(k, tags)
+	for i, k := range t.kids {
+		br := inBrackets
+		switch t.k {
+		case kLet, kFlet, kLabels:
+			br = br || i == 0 // [n value] / [n (p) body] are bracketed
+		case kLet2, kLetS2:
+			br = br || i < 2
+		}
+		termTags(k, tags, br)
 	}
 }
 
@@ -1043,7 +1069,9 @@ func (g *gen) render(items []item) program {
 				tags["pkg"] = true
 			}
 		case itDefmacro:
-			if it.free >= 0 {
+			if it.free >= 0 && it.free == it.p {
+				tags["defmacro-free-eq-param"] = true
+			} else if it.free >= 0 {
 				tags["defmacro-free"] = true
 			} else {
 				tags["defmacro"] = true
@@ -1058,7 +1086,39 @@ func (g *gen) render(items []item) program {
 			tags["files"] = true
 		}
 		if it.fill != nil {
-			termTags(it.fill, tags)
+			termTags(it.fill, tags, false)
+		}
+	}
+	fileOf := make([]int, len(items))
+	fno := 0
+	for i, it := range items {
+		if it.k == itBreak {
+			fno++
+		}
+		fileOf[i] = fno
+	}
+	for i, it := range items {
+		switch it.k {
+		case itExport:
+			same, other := false, false
+			for j, d := range items {
+				if (d.k == itDefun || d.k == itSet) && d.pkg == it.pkg && d.n == it.n {
+					if fileOf[j] == fileOf[i] {
+						same = true
+					} else {
+						other = true
+					}
+				}
+			}
+			if other && !same {
+				tags["export-in-other-file"] = true
+			}
+		case itUse:
+			for j, d := range items {
+				if d.k == itExport && d.pkg == 1 && fileOf[j] == fileOf[i] {
+					tags["use-with-local-export"] = true
+				}
+			}
 		}
 	}
 	var tl []string
